@@ -3,8 +3,8 @@
    ProofsComp.v; the model functions (normalize_float, parse_material,
    pot_fill, treat_fill, geomcomp, comp_names) are those of C09/Model.v that
    the correspondence ties execute against the Python code. *)
-From Coq Require Import List NArith ZArith Bool String Ascii.
-From T4V Require Import Base.Str C09.Model C09.Spec C09.ProofsNorm C09.ProofsIdem C09.ProofsFill C09.ProofsComp.
+From Coq Require Import List NArith ZArith QArith Qpower Bool String Ascii.
+From T4V Require Import Base.Str C09.Model C09.Spec C09.ProofsNorm C09.ProofsIdem C09.ProofsValue C09.ProofsFill C09.ProofsComp.
 Import ListNotations.
 Open Scope string_scope.
 
@@ -58,6 +58,29 @@ Theorem C09_normal_form_fixed : forall (n : number) (pad : nat),
   wf_number n = true -> normalize_float (normal_form n pad) = Ok (normal_form n pad).
 Proof. exact normal_form_fixed. Qed.
 Print Assumptions C09_normal_form_fixed.
+
+(* the value is kept: the normalised string is the e-spelling (no padding) of a
+   number with the same sign, integer digits and exponent whose rational value
+   (sign * mantissa digits * 10^(exponent - fraction length)) equals that of
+   the number spelled in the deck *)
+Example C09_number_value_unfold : forall n,
+  number_value n =
+  (sign_Q (n_sign n) * inject_Z (digits_Z (n_int n ++ frac_digits n)) *
+   Qpower (10 # 1) (exp_Z (n_exp n) - Z.of_nat (String.length (frac_digits n))))%Q.
+Proof. intros. reflexivity. Qed.
+
+Theorem C09_normalize_float_value : forall (n : number) (pad : nat) (m : marker),
+  wf_number n = true -> marker_ok n m = true ->
+  exists n', normalize_float (spell n pad m) = Ok (spell n' 0 Me) /\
+             wf_number n' = true /\ (number_value n' == number_value n)%Q /\
+             n_sign n' = n_sign n /\ n_int n' = n_int n /\ n_exp n' = n_exp n.
+Proof. exact normalize_float_value. Qed.
+Print Assumptions C09_normalize_float_value.
+
+Example C09_value_nontrivial :
+  (number_value (mkNumber "-" "1" (Some "135") (Some ("+", "1"))) == (-1135 # 100))%Q /\
+  (number_value (mkNumber "" "" (Some "0500") None) == (5 # 100))%Q.
+Proof. split; vm_compute; reflexivity. Qed.
 
 (* for ALL strings (no assumption on the token): what normalize_float returns
    is a fixed point; hence whatever density parse_material stores satisfies the
